@@ -121,19 +121,22 @@ func (run *Run) explain(f Factory, calls []Call, i int, used, fresh *Outcome) st
 		if c.Op != "Encode" && c.Op != "Marshal" {
 			return ""
 		}
-		if used.Left == -2 || len(used.Out) != 0 {
+		if used.Left == -2 {
 			return ""
 		}
-		// the used Writer behaves as a fresh one on which Write was called with the EARLIER io.Writer:
-		// same bytes offered to it, same error, nothing returned
-		c2 := *c
-		c2.Op = "Write"
-		c2.Abort = ""
+		// the used Writer answers exactly as a fresh Writer whose only history is ONE Write call to an
+		// io.Writer that accepts as many more bytes as the earlier one does: same result, same error,
+		// same bytes offered to that io.Writer
+		probe := &prettyWriter{}
+		prime := Call{Op: "Write", Data: &DSpec{K: "nil"}, Opt: &OSpec{Sort: true, Width: 80, MaxDepth: 3}}
 		if used.Left >= 0 {
-			c2.Abort = fmt.Sprintf("wfail:%d", used.Left)
+			prime.Abort = fmt.Sprintf("wfail:%d", used.Left+len("null"))
 		}
-		po := (&prettyWriter{}).Exec(&c2)
-		if string(po.Tried) == string(used.Stray) && (c.Op == "Encode" || po.Err == used.Err) {
+		if pr := probe.Exec(&prime); string(pr.Out) != "null" {
+			return ""
+		}
+		po := probe.Exec(c)
+		if normAddr(po.Text) == normAddr(used.Text) && string(po.Stray) == string(used.Stray) {
 			return "C07-pretty-sink"
 		}
 	}
@@ -358,9 +361,9 @@ func (run *Run) RunC07() {
 	rep.Count("c07.partial_box", int64(n))
 	rep.Exhaustive = append(rep.Exhaustive, fmt.Sprintf("%d fragments x %d follow-up inputs x 8 entry points of the four strict-JSON front-ends (two-call histories)", len(genPartials), len(followUps)))
 	// 3. random histories
-	per := 1500
+	per := 4000
 	if run.Tier == "thorough" {
-		per = 30000
+		per = 60000
 	}
 	rng := lib.NewRng(run.Seed)
 	for _, f := range Factories() {
